@@ -145,17 +145,20 @@ func (r *rateLimiter) UpdateRateLimitConditionStatus(upstream string, condition 
 		return nil, fmt.Errorf("limit store for upstream %s upstream shard %v not found", upstream, shardId)
 	}
 
-	upstreamCondition, err := limitStore.Get(condition.Spec.UpstreamCluster, upstreamStateConditionName(condition.Spec.UpstreamCluster))
-	if err != nil {
-		return nil, err
-	}
-
 	mutex := r.getUpstreamLock(condition.Spec.UpstreamCluster, false)
 	if mutex == nil {
 		return nil, fmt.Errorf("interval error: upstreamLock not exist")
 	}
 	mutex.Lock()
 	defer mutex.Unlock()
+
+	// The state condition (global limits and allocated sums) is read under the lock: a store may hand out
+	// copies (the API-backed store in write-through mode does), and a copy taken before the lock would
+	// be stale by the time it is used and saved - other reports' allocations and a changed limit would be lost.
+	upstreamCondition, err := limitStore.Get(condition.Spec.UpstreamCluster, upstreamStateConditionName(condition.Spec.UpstreamCluster))
+	if err != nil {
+		return nil, err
+	}
 
 	oldCondition, err := limitStore.Get(condition.Spec.UpstreamCluster, condition.Name)
 	onRecord := err == nil
